@@ -198,6 +198,7 @@ def emit_tla(d, modname=None):
            "  guards |-> %s," % tset(d.guards),
            "  sticky |-> %s," % tset(d.sticky),
            "  serial |-> %s," % ("TRUE" if d.serial else "FALSE"),
+           "  allstates |-> %s," % tseq(q(sn) for sn in d.snames if sn != d.root),
            "  counted |-> %s," % tset([e for e, ej in d.events.items() if ej.get("kind", "trivial") in ("nontrivial", "throwmove", "selfref")]),
            "  M |-> ["]
     ms = []
@@ -531,8 +532,20 @@ def emit_cpp(d, cfg, opts=None, fe="functor"):
         for s in subs:
             L.append("  stamp_%s(f.template get_state<%s&>(), i);" % (s, subT(s)))
         L.append("}")
+    if mp11 and fe == "functor":
+        owner = {}
+        for mn in d.order:
+            for sn in d.machines[mn]["states"]: owner.setdefault(sn, mn)
+        def qtype(sn):
+            if sn in d.machines: return subT(sn)
+            if d.machines[owner[sn]]["states"][sn]["kind"] == "exitpt": return "M_%s::exit_pt<%s >" % (owner[sn], sname(owner[sn], sn))   # back-end wrapper of the exit point
+            return sname(owner[sn], sn)
+        terms = ' << "," << '.join('(t.template is_state_active<%s >() ? "true" : "false")' % qtype(sn) for sn in d.snames if sn != d.root)
+        L.append('static std::string gen_isa(Top& t) { std::ostringstream o; o << "[" << %s << "]"; return o.str(); }' % terms)
+    else:
+        L.append('static std::string gen_isa(Top&) { return "[]"; }')
     L.append("static void gen_stamp(Top& t, int i) { stamp_%s(t, i); }" % d.root)
-    L.append('static void gen_dump(Top& t, std::ostream& o) { o << "\\"st\\":{"; dump_st_%s(t, o); o << "},\\"q\\":{"; dump_q_%s(t, o); o << "},\\"dt\\":{"; dump_dt_%s(t, o); o << "},\\"fl\\":" << flags_of(t); }'
+    L.append('static void gen_dump(Top& t, std::ostream& o) { o << "\\"st\\":{"; dump_st_%s(t, o); o << "},\\"q\\":{"; dump_q_%s(t, o); o << "},\\"dt\\":{"; dump_dt_%s(t, o); o << "},\\"isa\\":" << gen_isa(t) << ",\\"fl\\":" << flags_of(t); }'
              % (d.root, d.root, d.root))
     if mp11:
         L.append("static long gen_drain(Top& t, bool single) { return (long)(single ? t.process_event_pool(1) : t.process_event_pool()); }")
